@@ -621,6 +621,10 @@ def _summarise(c, info):
         out["len"] = len(c["v"])
         if c["v"] and isinstance(c["v"][0], dict) and c["v"][0].get("t") == "qc":
             out.update(_qc_info(c["v"][0]))
+        elif c["v"] and isinstance(c["v"][0], dict) and c["v"][0].get("t") == "list":
+            inner = c["v"][0]["v"]
+            if inner and isinstance(inner[0], str):
+                out["n_str"] = len(inner[0].lstrip("+-"))
     return out
 
 
